@@ -3,6 +3,9 @@
 From XV Require Import lib.Bytes gen.Mux C14.Model C14.Proofs.
 
 Definition nsc : bytes := str "jabber:client".
+Definition sep_eof : term := mkterm false false.   (* (nil, io.EOF) after the last token: xml.Decoder *)
+Definition with_eof : term := mkterm false true.   (* the last token together with io.EOF: xmlstream.Wrap *)
+Definition with_err : term := mkterm true true.    (* the last token together with another error *)
 Definition xa : name := (str "x", str "a").
 Definition yb : name := (str "y", str "b").
 
@@ -57,14 +60,71 @@ Proof. reflexivity. Qed.
 
 (* the first handler reads the whole stanza, the second still sees it from the start *)
 Example ex_replay :
-  handle ex_reg nsc msg_name chat_attrs two_children false [mkbeh 99 false; mkbeh 3 false] =
+  handle ex_reg nsc msg_name chat_attrs two_children sep_eof [mkbeh 99 false; mkbeh 3 false] =
   mkout [EvMsg 2 (str "chat") (TStart msg_name :: two_children);
          EvMsg 7 (str "chat") [TStart msg_name; TStart xa; TText false]] [] RetOk.
 Proof. vm_compute. reflexivity. Qed.
 
 (* an empty chat message goes to the type wildcard *)
-Example ex_empty : handle ex_reg nsc msg_name chat_attrs [TEnd] false [mkbeh 5 false] =
+Example ex_empty : handle ex_reg nsc msg_name chat_attrs [TEnd] sep_eof [mkbeh 5 false] =
   mkout [EvMsg 3 (str "chat") [TStart msg_name; TEnd]] [] RetOk.
+Proof. vm_compute. reflexivity. Qed.
+
+(* the same two dispatches when the reader returns the stanza's end element
+   together with io.EOF (or with another error): the first handler obtains that
+   token, it is buffered, and the second handler is replayed the complete stanza *)
+Example ex_replay_with_eof :
+  handle ex_reg nsc msg_name chat_attrs two_children with_eof [mkbeh 99 false; mkbeh 99 false] =
+  mkout [EvMsg 2 (str "chat") (TStart msg_name :: two_children);
+         EvMsg 7 (str "chat") (TStart msg_name :: two_children)] [] RetOk.
+Proof. vm_compute. reflexivity. Qed.
+Example ex_replay_with_err :
+  handle ex_reg nsc msg_name chat_attrs two_children with_err [mkbeh 99 false; mkbeh 99 false] =
+  mkout [EvMsg 2 (str "chat") (TStart msg_name :: two_children);
+         EvMsg 7 (str "chat") (TStart msg_name :: two_children)] [] RetOk.
+Proof. vm_compute. reflexivity. Qed.
+Example ex_empty_with_eof : handle ex_reg nsc msg_name chat_attrs [TEnd] with_eof [mkbeh 5 false] =
+  mkout [EvMsg 3 (str "chat") [TStart msg_name; TEnd]] [] RetOk.
+Proof. vm_compute. reflexivity. Qed.
+Example ex_fin_err : fin_err with_eof [] = Some false /\ fin_err with_err [] = Some true /\ fin_err sep_eof [] = None.
+Proof. repeat split; reflexivity. Qed.
+(* hypotheses of C14_token_with_error_is_buffered: the reader at the end of a
+   two-token buffer, the underlying reader about to return its last token with io.EOF *)
+Example ex_fetch :
+  b_token with_eof (mkbr [TStart msg_name; TStart xa] 2 [TEnd]) =
+  RTok TEnd (Some false) (mkbr [TStart msg_name; TStart xa; TEnd] 3 []).
+Proof. vm_compute. reflexivity. Qed.
+
+(* a registry whose message patterns are named like the stanza element itself
+   (exact, local name only, name space only - say, to catch body and subject):
+   none of them is chosen for the empty message, with or without a bare type
+   wildcard; each is chosen for a child of that name *)
+Definition own_ops : list regop :=
+  [RMsg (str "chat") (nsc, str "message") (HOk 1); RMsg (str "chat") ([], str "message") (HOk 2);
+   RMsg (str "chat") (nsc, []) (HOk 3)].
+Definition own_reg : registry := match new_mux own_ops with Some r => r | None => empty_reg end.
+Definition own_reg_w : registry :=
+  match new_mux (own_ops ++ [RMsg (str "chat") ([], []) (HOk 4)]) with Some r => r | None => empty_reg end.
+Example ex_own_new : new_mux own_ops = Some own_reg /\
+                     new_mux (own_ops ++ [RMsg (str "chat") ([], []) (HOk 4)]) = Some own_reg_w.
+Proof. vm_compute. split; reflexivity. Qed.
+Example ex_own_empty : handle own_reg nsc msg_name chat_attrs [TEnd] with_eof [mkbeh 5 false] = out_nothing.
+Proof. vm_compute. reflexivity. Qed.
+Example ex_own_empty_w : handle own_reg_w nsc msg_name chat_attrs [TEnd] sep_eof [mkbeh 5 false] =
+  mkout [EvMsg 4 (str "chat") [TStart msg_name; TEnd]] [] RetOk.
+Proof. vm_compute. reflexivity. Qed.
+Example ex_own_child :
+  handle own_reg_w nsc msg_name chat_attrs [TStart (nsc, str "body"); TEnd; TEnd] sep_eof [mkbeh 1 false] =
+  mkout [EvMsg 3 (str "chat") [TStart msg_name]] [] RetOk.
+Proof. vm_compute. reflexivity. Qed.
+Example ex_own_registered : registered (own_ops ++ [RMsg (str "chat") ([], []) (HOk 4)]) (child_tbl SMsg) (str "chat") ([], []) 4.
+Proof. cbn. auto 8. Qed.
+
+(* a truncated IQ whose payload start comes together with io.EOF is taken for an
+   empty IQ: the hypothesis rest <> [] of C14_iq_dispatch is needed *)
+Example ex_iq_truncated :
+  handle ex_reg nsc (nsc, str "iq") [mkattr [] (str "type") (str "get") None] [TStart xa] with_eof [mkbeh 9 false] =
+  mkout [] [mkreply nsc (str "error") None None [] [] (str "cancel") (str "service-unavailable")] RetErr.
 Proof. vm_compute. reflexivity. Qed.
 
 (* IQs *)
@@ -79,19 +139,19 @@ Proof. vm_compute. reflexivity. Qed.
 Example ex_iq_hyps : lookup_top ex_reg iq_name = None /\ stanza_is iq_name nsc = true /\ snd iq_name = str "iq".
 Proof. vm_compute. repeat split; reflexivity. Qed.
 Example ex_iq_handled :
-  handle ex_reg nsc iq_name get_attrs [TText true; TStart xa; TText false; TEnd; TEnd] false [mkbeh 9 false] =
+  handle ex_reg nsc iq_name get_attrs [TText true; TStart xa; TText false; TEnd; TEnd] sep_eof [mkbeh 9 false] =
   mkout [EvIq 4 (str "get") (Some xa) [TText false; TEnd]] [] RetOk.
 Proof. vm_compute. reflexivity. Qed.
-Example ex_iq_unhandled : iq_unhandled ex_reg get_hdr [TStart yb; TEnd; TEnd] false.
-Proof. vm_compute. reflexivity. Qed.
+Example ex_iq_unhandled : iq_unhandled ex_reg get_hdr [TStart yb; TEnd; TEnd] sep_eof.
+Proof. split; [discriminate|vm_compute; reflexivity]. Qed.
 Example ex_iq_default :
-  handle ex_reg nsc iq_name get_attrs [TStart yb; TEnd; TEnd] false [] =
+  handle ex_reg nsc iq_name get_attrs [TStart yb; TEnd; TEnd] sep_eof [] =
   mkout [] [mkreply nsc (str "error") (Some (str "a@b/c")) (Some (str "d")) (str "i1") [] (str "cancel")
               (str "service-unavailable")] RetOk.
 Proof. vm_compute. reflexivity. Qed.
 (* the witness of the repaired defect: an empty get IQ is answered (and reported) *)
 Example ex_iq_empty_get :
-  handle ex_reg nsc iq_name get_attrs [TEnd] false [] =
+  handle ex_reg nsc iq_name get_attrs [TEnd] sep_eof [] =
   mkout [] [service_unavailable iq_name get_hdr] RetErr.
 Proof. vm_compute. reflexivity. Qed.
 
